@@ -245,6 +245,12 @@ func init() {
 						}
 					}
 					l = append(l, fmt.Sprintf("%d:%d:%d:%d", zq, q, zv, vi))
+					if rng.Intn(6) == 0 { // the same key NUMBER at a neighbouring quadkey zoom is a different tile
+						z2 := zq + int64(1-2*rng.Intn(2))
+						if z2 >= 1 && z2 <= 31 && q < int64(1)<<uint(2*z2) {
+							l = append(l, fmt.Sprintf("%d:%d:%d:%d", z2, q, zv, vi))
+						}
+					}
 					if rng.Intn(3) == 0 {
 						l = append(l, l[len(l)-1])
 					}
@@ -292,6 +298,16 @@ func init() {
 					outH = 32
 				case 2:
 					outV = 36
+				}
+				if rng.Intn(5) == 0 { // the spatial-ID entry point (h = v)
+					var sl []ext
+					for _, e := range l {
+						e.v = e.h
+						sl = append(sl, clampExtF(e))
+					}
+					// bounded expansion: both output zooms near the (single) zoom of the spatial IDs
+					sv := zoomNear(minH, 4, 3)
+					do("s2qv", join(maybeCorrupt(spids(sl), 0.05)), s(outH), s(sv))
 				}
 				idl = zoomFieldOut(maybeCorrupt(ids(l), 0.05))
 				if rng.Intn(5) == 0 {
